@@ -36,7 +36,7 @@ func failNow(t *testing.T, prop string, c Case, v *Violation) {
 // ---------------------------------------------------------------------------
 // C16: whole-collection enumerations at every size
 
-const c16Rule = "exhaustive sizes: every n in 0..130 and in the neighbourhoods of 1024, 2048, 3072, 4096 (1020..1030, 2044..2052, 3068..3076, 4095..4100), memory-only and flushed+evicted+re-opened, Len, VisitItemsAscendBlockEx (nil mangler, reverse, RandBm, seeded shuffle; with and without values) and VisitItemsRandom: no panic, Len == n, multiset of keys handed to the visitor == key set (each exactly once); for n == 0 the visitor is never called (nil-or-error not judged). Random part: rapid-generated key sets/priorities/comparators up to 300 items through the history interpreter. Non-trivial = n odd or n > 1024 with a partial last block; distinct by (n, cache state, API variant) resp. case hash."
+const c16Rule = "exhaustive sizes: every n in 0..130 and in the neighbourhoods of k*1024 for k = 1..10 and 12 (1020..1030, 2044..2052, 3068..3076, 4095..4100, 5119..5122, ..., 10239..10243, 12289..12290), memory-only, flushed+evicted, re-opened, and re-opened with the enumeration as the very first walk of the tree, Len, VisitItemsAscendBlockEx (nil mangler, reverse, RandBm, seeded shuffle; with and without values) and VisitItemsRandom: no panic, Len == n, multiset of keys handed to the visitor == key set (each exactly once); for n == 0 the visitor is never called (nil-or-error not judged). Random part: rapid-generated key sets/priorities/comparators up to 300 items through the history interpreter. Non-trivial = n odd or n > 1024 with a partial last block; distinct by (n, cache state, API variant) resp. case hash."
 
 // sizeCase encodes one exhaustive C16 case as a replayable Case.
 func sizeCase(n int, mode int) Case {
@@ -90,7 +90,7 @@ func RunSizeCase(c Case) *Violation {
 			for i := 0; i < 20; i++ {
 				col.EvictSomeItems()
 			}
-			if mode == 2 {
+			if mode >= 2 {
 				st.Close()
 				if st, err = g.NewStore(file); err != nil {
 					v = fail("reopen", "%v", err)
@@ -99,10 +99,13 @@ func RunSizeCase(c Case) *Violation {
 				col = st.GetCollection("x")
 			}
 		}
-		l, err := col.Len()
-		if err != nil || l != int64(n) {
-			v = fail("len", "Len() = %d, %v; the collection has %d items", l, err, n)
-			return
+		if mode != 3 {
+			// (mode 3: the enumerations run before anything else walked the re-opened tree)
+			l, err := col.Len()
+			if err != nil || l != int64(n) {
+				v = fail("len", "Len() = %d, %v; the collection has %d items", l, err, n)
+				return
+			}
 		}
 		run := func(name string, f func(vis g.ItemVisitorEx) error) {
 			if v != nil {
@@ -160,7 +163,7 @@ func c16Sizes() []int {
 	for n := 0; n <= 130; n++ {
 		ns = append(ns, n)
 	}
-	for _, r := range [][2]int{{1020, 1030}, {2044, 2052}, {3068, 3076}, {4095, 4100}} {
+	for _, r := range [][2]int{{1020, 1030}, {2044, 2052}, {3068, 3076}, {4095, 4100}, {5119, 5122}, {6143, 6146}, {7167, 7171}, {8191, 8195}, {9215, 9219}, {10239, 10243}, {12289, 12290}} {
 		for n := r[0]; n <= r[1]; n++ {
 			ns = append(ns, n)
 		}
@@ -180,7 +183,10 @@ func TestC16Sizes(t *testing.T) {
 	sh, nsh := shardOf()
 	idx := 0
 	for _, n := range c16Sizes() {
-		for mode := 0; mode < 3; mode++ {
+		for mode := 0; mode < 4; mode++ {
+			if mode == 3 && n > 1100 && n%2 == 0 {
+				continue // the fourth cache state for every small n and every second large one
+			}
 			idx++
 			if idx%nsh != sh {
 				continue
@@ -202,7 +208,7 @@ func TestC16Sizes(t *testing.T) {
 			if n > 1024 {
 				ev["size_above_maxblocks"] = 1
 			}
-			st.Note(c.Hash(), ev, nontrivial, func() string { return fmt.Sprintf("n=%d mode=%d (0 mem, 1 flushed+evicted, 2 re-opened)", n, mode) })
+			st.Note(c.Hash(), ev, nontrivial, func() string { return fmt.Sprintf("n=%d mode=%d (0 mem, 1 flushed+evicted, 2 re-opened, 3 re-opened and enumerated before any other walk)", n, mode) })
 		}
 	}
 }
